@@ -21,6 +21,7 @@ const (
 	KUint  // uint64 payload
 	KF32
 	KF64
+	KBytes // byte string (CBOR major type 2); other formats: array of small unsigned integers
 )
 
 type Node struct {
@@ -36,7 +37,8 @@ type Cfg struct {
 	Width   int // max children per container
 	MaxNode int // max nodes in total
 	StrLen  int // max length of strings and keys (symbolic bytes)
-	Leaves  int // number of leaf kinds used, in the order int,string,bool,nil,uint,f32,f64
+	Leaves  int // number of leaf kinds used, in the order int,string,bool,nil,uint,f32,f64,bytes
+	Bytes   bool // additionally generate byte strings (independent of Leaves)
 	ASCII   bool // strings/keys restricted to printable ASCII without quote/backslash
 	Small   bool // integers restricted to 0..9 and string bytes to 'a' (harnesses whose subject is not the scalar encoding)
 	nodes   int
@@ -73,15 +75,21 @@ func (c *Cfg) str(what string) []byte {
 func (c *Cfg) value(depth int) *Node {
 	c.nodes++
 	maxKind := c.Leaves - 1
-	leafKinds := []Kind{KInt, KStr, KBool, KNil, KUint, KF32, KF64}
+	leafKinds := []Kind{KInt, KStr, KBool, KNil, KUint, KF32, KF64, KBytes}
 	nChoices := c.Leaves
+	if c.Bytes && c.Leaves < 8 {
+		// byte strings as an extra leaf choice right after the configured leaves
+		leafKinds = append(append([]Kind{}, leafKinds[:c.Leaves]...), KBytes)
+		nChoices++
+	}
+	nLeaves := nChoices
 	canNest := depth < c.Depth && c.nodes < c.MaxNode
 	if canNest {
 		nChoices += 2
 	}
 	_ = maxKind
 	k := c.h.Choose("kind", 0, nChoices-1)
-	if k < c.Leaves {
+	if k < nLeaves {
 		n := &Node{K: leafKinds[k]}
 		switch n.K {
 		case KBool:
@@ -95,11 +103,13 @@ func (c *Cfg) value(depth int) *Node {
 			n.Bits = uint64(c.h.U32("v"))
 		case KStr:
 			n.Str = c.str("s")
+		case KBytes:
+			n.Str = c.h.Bytes("bs", c.h.Choose("bslen", 0, 2))
 		}
 		return n
 	}
 	n := &Node{K: KArr}
-	if k == c.Leaves+1 {
+	if k == nLeaves+1 {
 		n.K = KObj
 	}
 	room := c.MaxNode - c.nodes
@@ -135,6 +145,12 @@ func (n *Node) Events(out []ev.Event) []ev.Event {
 		out = append(out, ev.Event{K: ev.Float64, Bits: n.Bits})
 	case KStr:
 		out = append(out, ev.Event{K: ev.String, Str: n.Str})
+	case KBytes:
+		out = append(out, ev.Event{K: ev.ArrStart})
+		for _, b := range n.Str {
+			out = append(out, ev.NumEvent(false, uint64(b)))
+		}
+		out = append(out, ev.Event{K: ev.ArrEnd})
 	case KArr:
 		out = append(out, ev.Event{K: ev.ArrStart})
 		for _, k := range n.Kids {
@@ -217,6 +233,9 @@ func EncodeCBOR(h *rt.H, n *Node, o CBOROpts, out []byte) []byte {
 		out = append(out, 0xfb, byte(n.Bits>>56), byte(n.Bits>>48), byte(n.Bits>>40), byte(n.Bits>>32), byte(n.Bits>>24), byte(n.Bits>>16), byte(n.Bits>>8), byte(n.Bits))
 	case KStr:
 		out = cborHead(out, 3, uint64(len(n.Str)), o.Width)
+		out = append(out, n.Str...)
+	case KBytes:
+		out = cborHead(out, 2, uint64(len(n.Str)), o.Width)
 		out = append(out, n.Str...)
 	case KArr:
 		if o.Indef {
@@ -322,6 +341,16 @@ func JSONText(h *rt.H, n *Node, o JSONOpts, out []byte) []byte {
 		}
 		out = append(out, n.Str...)
 		out = append(out, '"')
+	case KBytes:
+		out = o.tok(out, '[')
+		for i, c := range n.Str {
+			if i > 0 {
+				out = o.tok(out, ',')
+			}
+			h.Assume(c < 10)
+			out = append(out, '0'+c)
+		}
+		out = o.tok(out, ']')
 	case KArr:
 		out = o.tok(out, '[')
 		for i, k := range n.Kids {
@@ -396,7 +425,7 @@ func ubjMarker(h *rt.H, n *Node, o UBJOpts) byte {
 		return 'D'
 	case KStr:
 		return 'S'
-	case KArr:
+	case KArr, KBytes:
 		return '['
 	}
 	return '{'
@@ -440,6 +469,11 @@ func ubjPayload(h *rt.H, n *Node, m byte, o UBJOpts, out []byte) []byte {
 		out = ubjLen(out, len(n.Str), o.LenMarker)
 		out = append(out, n.Str...)
 	case '[', '{':
+		if n.K == KBytes {
+			out = append(out, '$', 'U', '#')
+			out = ubjLen(out, len(n.Str), o.LenMarker)
+			return append(out, n.Str...)
+		}
 		out = ubjContainer(h, n, o, out)
 	}
 	return out
